@@ -517,6 +517,8 @@ class Exec:
         if s.startswith('"') or s.startswith('b"'): return StrVal(s)
         m = re.match(r'^(-?[\d.]+(?:[eE][-+]?\d+)?)f(32|64)$', s)
         if m: return FloatV(float(m.group(1)))
+        m = re.match(r'^core::num::<impl (\w+)>::(MAX|MIN)$', s)
+        if m: return bv(ty_range(m.group(1))[1 if m.group(2) == 'MAX' else 0], m.group(1))
         if s.startswith('ZeroSized: '):
             t = s[11:]
             if t.startswith('{closure@'): return Agg(t, None, [])
